@@ -62,6 +62,10 @@ vp_on_unlock(void) {
 }
 
 static void
+vp_on_gc_start(void) {
+}
+
+static void
 vp_on_wait(ldb_cond_t *cv) {
   (void)cv;
   VP_ASSERT(0, "the collector never waits");
